@@ -154,6 +154,21 @@ Theorem C12_redeem_refuted :
 Proof. vm_compute. repeat split; reflexivity. Qed.
 Print Assumptions C12_redeem_refuted.
 
+(* Partial: on a validator at exchange rate one (never slashed) every holder can redeem any
+   amount the module's delegation covers, unless the burn would unbond the last shares of an
+   unbonded validator (the refusal above): in particular whenever another delegator remains or
+   the validator is bonded or unbonding.  The holder receives exactly one share per unit. *)
+Theorem C12_redeem_partial :
+  forall e s a i amt,
+  Inv e s -> rate1 s i -> (liq e < nacc e)%nat ->
+  0 < amt <= dbal s a i ->
+  dec_of_int amt <= dshares s (liq e) i ->
+  redel s (liq e) i = false -> liq e <> oper e i -> v_exists (vals s i) = true ->
+  (v_status (vals s i) <> Unbonded \/ v_shares (vals s i) <> dec_of_int amt) ->
+  exists s' recv, burn e s a i amt = Ok s' recv /\ recv = dec_of_int amt.
+Proof. exact burn_succeeds_rate1. Qed.
+Print Assumptions C12_redeem_partial.
+
 (** ** guards *)
 
 (* an incoming redelegation of the party whose delegation is unbonded blocks the transfer,
